@@ -553,14 +553,26 @@ def run(chk):
         app, _ = summ.pieces(v, ap, hooks=NOINLINE)
         m_, p_, Ms, Np = [p["n"] for p in ap.params]
         st = [p for p in app if p["kind"] == "store"]
-        oka = len(st) == 1 and len(st[0]["loops"]) == 1 and summ.visits(st[0]["loops"][0], ZERO, sym.sym(Np)) \
-            and st[0]["val"] == ("call", "approxPhase", (sym.idx(P(p_, "coefsT"), st[0]["loops"][0]["var"]), sym.sym(Ms))) \
-            and st[0]["lv"] == sym.idx(P(m_, "coefsT"), st[0]["loops"][0]["var"])
-        why_a = [summ.show_piece(p)[:100] for p in st]
-        if not oka and len(st) == 1 and len(st[0]["loops"]) == 1 and not _mentions_call(st[0]["val"], "approxPhase"):
-            oka, why_a = inline_rounding(chk, v, st[0], sym.idx(P(p_, "coefsT"), st[0]["loops"][0]["var"]), sym.sym(Ms))
-            if oka:
-                lp0 = st[0]["loops"][0]
-                oka = summ.visits(lp0, ZERO, sym.sym(Np)) and st[0]["lv"] == sym.idx(P(m_, "coefsT"), lp0["var"])
+        # every statement rounds the coefficient at the position it writes (by calling approxPhase or by an in-line rounding that is
+        # compared with approxPhase's grid); together the statements visit [0, N) exactly once (peeled, unrolled, any direction)
+        from sa import coverage
+        dst_arr, src_arr = P(m_, "coefsT"), P(p_, "coefsT")
+        inline_why = []
+
+        def rounds(val, ix):
+            if val == ("call", "approxPhase", (sym.idx(src_arr, ix), sym.sym(Ms))):
+                return None
+            if not _mentions_call(val, "approxPhase"):
+                ok_i, why_i = inline_rounding(chk, v, {"val": val, "line": 0, "loops": [], "lv": sym.idx(dst_arr, ix)}, sym.idx(src_arr, ix), sym.sym(Ms))
+                if ok_i:
+                    return None
+                inline_why.append(why_i)
+                return "message[%s] is rounded differently from approxPhase: %s" % (sym.show(ix), why_i)
+            return "message[%s] = %s is not approxPhase(phase[%s], Msize)" % (sym.show(ix), sym.show(val)[:80], sym.show(ix))
+        sta, deta, na_ = coverage.filled_by(st, dst_arr, sym.sym(Np), rounds)
+        if sta == "unknown":
+            chk.broken("tLweApproxPhase: %s" % deta)
+        oka = sta == "proved"
+        why_a = deta if not oka else [summ.show_piece(p)[:100] for p in st]
         chk.require(oka, "R6", "tLweApproxPhase rounds each of the N coefficients with the caller's Msize", where=ap.where,
                     ok="message[i] = approxPhase(phase[i], Msize), i<N", bad=why_a, variant=vn)
